@@ -408,15 +408,55 @@ fn c07(ctx: &Ctx, calls: &[CallRec], exchanges: &[Exchange], records: &[Record])
             None => (uri.as_str(), None),
         };
         let segs: Vec<&str> = path.split('/').skip(1).collect();
-        if segs.len() != meta.segs.len() {
+        // one segment per literal and per supplied value (a list-valued macro path parameter: one per item)
+        let expected_segs: usize = meta
+            .segs
+            .iter()
+            .map(|t| match t {
+                Seg::Lit(_) => 1,
+                Seg::Param(name) => arg_of(call, meta, name).map(|a| a.val.plain_count()).unwrap_or(1),
+            })
+            .sum();
+        if segs.len() != expected_segs {
             ctx.violation(
                 "C07",
                 "path_segment_count",
-                format!("{}: template {} has {} segments, URI path has {}: {}", who, meta.template, meta.segs.len(), segs.len(), clip(path)),
+                format!("{}: template {} prescribes {} segments for these arguments, URI path has {}: {}", who, meta.template, expected_segs, segs.len(), clip(path)),
             );
             continue;
         }
-        for (seg, tmpl) in segs.iter().zip(&meta.segs) {
+        let mut seg_iter = segs.iter();
+        for tmpl in &meta.segs {
+            let n = match tmpl {
+                Seg::Lit(_) => 1,
+                Seg::Param(name) => arg_of(call, meta, name).map(|a| a.val.plain_count()).unwrap_or(1),
+            };
+            if n != 1 {
+                // multi-segment parameter: every item escaped, all items decode back in order
+                let Seg::Param(name) = tmpl else { continue };
+                let Some(arg) = arg_of(call, meta, name) else { continue };
+                let mut decoded = Vec::new();
+                let mut ok = true;
+                for _ in 0..n {
+                    let seg = seg_iter.next().unwrap();
+                    if let Some(b) = seg.bytes().find(|b| !judge::structural_safe_path_byte(*b)) {
+                        ctx.violation("C07", format!("unescaped_byte_in_path:{:#04x}", b), format!("{}: parameter {} rendered as {:?}", who, name, clip(seg)));
+                        ok = false;
+                    }
+                    match judge::pct_decode(seg) {
+                        Some(d) => decoded.push(d),
+                        None => {
+                            ctx.violation("C07", "malformed_escape_in_path", format!("{}: parameter {} rendered as {:?}", who, name, clip(seg)));
+                            ok = false;
+                        }
+                    }
+                }
+                if ok && !arg.val.plain_ok(&decoded) {
+                    ctx.violation("C07", "path_value_does_not_decode_back", format!("{}: parameter {} = {} decodes to {:?}", who, name, arg.val.render(), decoded.iter().map(|d| clip(d)).collect::<Vec<_>>()));
+                }
+                continue;
+            }
+            let seg = seg_iter.next().unwrap();
             match tmpl {
                 Seg::Lit(l) => {
                     if seg != l {
@@ -476,7 +516,7 @@ fn c07(ctx: &Ctx, calls: &[CallRec], exchanges: &[Exchange], records: &[Record])
                     bad = true;
                     continue;
                 };
-                if k != a.param_id {
+                if judge::pct_decode(k).as_deref() != Some(a.param_id.as_str()) || k.bytes().any(|b| b == b'&' || b == b'#' || b == b'+') {
                     ctx.violation("C07", "query_key_altered", format!("{}: expected key {:?} got {:?}", who, a.param_id, clip(k)));
                     bad = true;
                     continue;
@@ -618,6 +658,40 @@ fn c09(ctx: &Ctx, knobs: &GenKnobs, calls: &[CallRec], exchanges: &[Exchange]) {
                     Some(a) => {
                         if clearly_unsafe(a) {
                             ctx.violation("C09", format!("unsafe_arg_in_safe_params:{:?}", a.kind), format!("{}: argument {} is not declared safe but was recorded as a safe parameter", who, k));
+                        }
+                    }
+                }
+            }
+        }
+        // positive half on failure: arguments are decoded in declaration order, so every
+        // declared-safe argument before the one the error names has been decoded and recorded
+        if let ServerOut::Err(e) = &ex.server {
+            let failing = e
+                .safe_params
+                .iter()
+                .find(|(k, _)| k == "param")
+                .and_then(|(_, v)| serde_json::from_str::<String>(v).ok())
+                .and_then(|name| meta.args.iter().position(|a| a.name == name));
+            if let (Some(pos), true) = (failing, ex.routed == Some(call.ep)) {
+                let sp = ex.safe_params.clone().unwrap_or_default();
+                for a in meta.args[..pos].iter().filter(|a| a.declared_safe()) {
+                    // untouched by any fault?
+                    if ex.req_fired.iter().any(|f| f.detail.contains(&a.name)) {
+                        continue;
+                    }
+                    let Some(arg) = arg_of(call, meta, &a.name) else { continue };
+                    ctx.count("probe.c09_safe_arg_expected_on_failure");
+                    match sp.iter().find(|(k, _)| k == &a.name) {
+                        None => ctx.violation(
+                            "C09",
+                            format!("safe_arg_missing_after_later_failure:{:?}", a.kind),
+                            format!("{}: argument {} is declared safe and was decoded before {} failed, but it is absent from the safe-parameter set {:?}", who, a.name, meta.args[pos].name, sp),
+                        ),
+                        Some((_, v)) => {
+                            let actual: Value = serde_json::from_str(v).unwrap_or(Value::Null);
+                            if !json_eq(&actual, &arg.val.json_value()) {
+                                ctx.violation("C09", format!("safe_arg_value_differs:{:?}", a.kind), format!("{}: safe parameter {} is {} but the argument was {}", who, a.name, v, arg.val.json_value()));
+                            }
                         }
                     }
                 }
@@ -1013,10 +1087,15 @@ fn c18(ctx: &Ctx, calls: &[CallRec], exchanges: &[Exchange]) {
             (WantC::Either, CallResult::Ok(v)) => {
                 // never a partial value: it must be what the bytes denote
                 if rk == RetKind::Json && json_ct {
-                    if let Some(reference) = std::str::from_utf8(&eff).ok().and_then(|s| glue_gen::ret_from_json(call.ep, s)) {
-                        if !reference.eq_dyn(&**v) {
-                            ctx.violation("C18", format!("value_not_what_bytes_denote:{}", meta.ret_kind_name()), format!("{}: client returned {} but the body denotes {}: {}", who, v.render(), reference.render(), describe()));
+                    match std::str::from_utf8(&eff).ok().and_then(|s| crate::mirror::ret_from_json(call.ep, s)) {
+                        Some(reference) => {
+                            if !reference.eq_dyn(&**v) {
+                                ctx.violation("C18", format!("value_not_what_bytes_denote:{}", meta.ret_kind_name()), format!("{}: client returned {} but the body denotes {}: {}", who, v.render(), reference.render(), describe()));
+                            }
                         }
+                        // history independence: the contiguous bytes do not decode to the return type,
+                        // so no chunking / poll schedule of them may yield a value
+                        None => ctx.violation("C18", format!("value_from_undecodable_body:{}", meta.ret_kind_name()), format!("{}: client returned {} from a body that does not decode as the return type: {}", who, v.render(), describe())),
                     }
                 }
             }
@@ -1047,7 +1126,7 @@ fn c18(ctx: &Ctx, calls: &[CallRec], exchanges: &[Exchange]) {
                 // with several calls in flight on one endpoint the scripted returns may be
                 // consumed in another order; C04 matches those, here the body is the reference
                 let reference = if calls.len() > 1 {
-                    std::str::from_utf8(&eff).ok().and_then(|s| glue_gen::ret_from_json(call.ep, s))
+                    std::str::from_utf8(&eff).ok().and_then(|s| crate::mirror::ret_from_json(call.ep, s))
                 } else {
                     None
                 };
